@@ -719,6 +719,9 @@ class Interp:
                 out |= self.variant_facts(st, v[2], {good} if n == 'Continue' else {bad}, depth + 1)
             if v[0] == 'app' and v[1] == 'checked_add' and n == 'Some':
                 out.add(('nooverflow', 'add', v[2], v[3]))
+            if v[0] == 'app' and v[1] == 'checked_sub' and len(v) == 4:
+                # a.checked_sub(b) is None exactly when a < b
+                out.add(('le', v[3], v[2]) if n == 'Some' else ('lt', v[2], v[3]))
             if v[0] == 'app' and v[1] == 'checked_mul' and n == 'Some':
                 out.add(('nooverflow', 'mul', v[2], v[3]))
             if v[0] == 'app' and v[1] == 'nonnull_new':
@@ -1224,6 +1227,22 @@ class Interp:
                 continue
             s2 = st.copy()
             added = set.intersection(*sets) if len(sets) > 1 else sets[0]
+            if len(sets) > 1 and d[0] == 'discr':
+                # several variants lead to one block (`A | B => ..`): what the set of variants implies as a whole
+                # (Less | Equal: a <= b) survives although no single variant's facts do
+                tab = self.discr_tables.get(d[2])
+                if tab:
+                    byval = {}
+                    for n, dv in zip(*tab):
+                        byval[int(dv)] = n
+                        byval[int(dv) & 0xff] = n
+                    names = {byval.get(v) for v in vs}
+                    if tb == t['otherwise']:
+                        names |= set(tab[0]) - {byval.get(x) for x in vals}
+                    if None not in names and len(names) > 1:
+                        extra = self.variant_facts(st, d[1], names)
+                        if ('false',) not in extra:
+                            added = set(added) | extra
             if self.refute_panic_edges and self.panic_only(g, tb):
                 why = self.refute(st, added)
                 kind = 'assert_discharged' if why else 'assert_open'
